@@ -30,7 +30,22 @@ fn gen(ctx: &GenCtx, i: u64) -> Option<Run> {
     let kspec = key_for(proto, &mut r);
     let key = rb.key(kspec.clone());
     let mlen = gen_len(&mut r, false).min(120);
-    let footer = gen_opt_text(&mut r).map(|f| f.chars().take(12).collect::<String>());
+    let mut footer = gen_opt_text(&mut r).map(|f| f.chars().take(12).collect::<String>());
+    if !proto.is_local() && r.chance(1, 3) {
+        // the footer announces the signer's own public key (serialised-key / key-id style footers): the
+        // announcement is authenticated, but it must never replace the key the verifier was given
+        if let Some(pk) = crate::keys::resolve(&kspec).public_for(proto) {
+            use base64::prelude::*;
+            let b64 = BASE64_URL_SAFE_NO_PAD.encode(&pk);
+            let ver = &proto.name()[1..2];
+            footer = Some(match r.below(5) {
+                0 | 1 => format!("k{}.public.{}", ver, b64),
+                2 => format!("{{\"kid\":\"k{}.public.{}\"}}", ver, b64),
+                3 => format!("{{\"wpk\":\"{}\"}}", b64),
+                _ => hex::encode(&pk),
+            });
+        }
+    }
     let assertion = if proto.has_assertion() { gen_opt_text(&mut r).map(|f| f.chars().take(12).collect::<String>()) } else { None };
     // core layer: often a raw (non-JSON) message, with the very short ones over-represented - a wrong
     // key that slips through authentication only shows if the garbage plaintext is still UTF-8
